@@ -232,7 +232,14 @@ def transformOk (qa : Quantity) (ua : U) (var : U) (qr : Quantity) (ur : U) : Bo
     (units x s), the transform out of them back to time integrates over frequency in cycles,
     `df = d omega / (2 pi)` (units x Hz) -- never over rad/s -/
 def Domain.isFrequencyLike : Domain → Bool
-  | .laplace | .fourier | .angularFourier | .frequencyResponse | .angularFrequencyResponse => true
+  | .laplace | .fourier | .angularFourier | .frequencyResponse | .angularFrequencyResponse
+  | .normFourier | .normAngularFourier => true
+  | _ => false
+
+/-- the normalised-frequency domains (F = f Delta_t, Omega = omega Delta_t): like the
+    frequency-response domains Lcapy gives signals there the units of the time-domain signal -/
+def Domain.isNormalised : Domain → Bool
+  | .normFourier | .normAngularFourier => true
   | _ => false
 
 /-- the frequency-response domains, where Lcapy gives signals (voltage, current and their
@@ -255,16 +262,22 @@ def Quantity.isProduct : Quantity → Bool
 /-- angle-aware equality of units: same SI dimension and same power of the radian -/
 def sameUnits (u w : U) : Bool := decide (dimU u = dimU w) && decide (u.radian = w.radian)
 
+/-- a transform that SUMS over samples (z-transform, DFT, DTFT as Lcapy defines it, without the
+    factor Delta_t) or inverts such a sum keeps the quantity and the units (same SI dimension, same
+    power of the radian) -/
+def sampleOk (qa : Quantity) (ua : U) (qr : Quantity) (ur : U) : Bool := qr == qa && sameUnits ua ur
+
 /-- one domain change `src → dst` of an expression of quantity `qa` and units `ua` giving
     quantity `qr`, units `ur`:
     the quantity is kept; the radian never enters; time → frequency-like multiplies by seconds,
     frequency-like → time by hertz, frequency-like → frequency-like (a substitution) by nothing.
     The dimension clause is not applied to expressions without quantity, to the product
-    quantities, and to signals entering or leaving a frequency-response domain (Lcapy's
-    convention there is judged by route independence instead). -/
+    quantities, and to signals entering or leaving a frequency-response or normalised-frequency
+    domain (Lcapy's convention there is judged by route independence instead). -/
 def stepOk (src dst : Domain) (qa : Quantity) (ua : U) (qr : Quantity) (ur : U) : Bool :=
   qr == qa && decide (ur.radian = ua.radian) &&
-  (!qa.isDefined || qa.isProduct || (qa.isSignalLike && (src.isResponse || dst.isResponse)) ||
+  (!qa.isDefined || qa.isProduct ||
+    (qa.isSignalLike && (src.isResponse || dst.isResponse || src.isNormalised || dst.isNormalised)) ||
     (if src = .time && dst.isFrequencyLike then decide (dimU ur = dimU ua + ⟨0, 0, 1⟩)
      else if src.isFrequencyLike && dst = .time then decide (dimU ur = dimU ua - ⟨0, 0, 1⟩)
      else if src.isFrequencyLike && dst.isFrequencyLike then decide (dimU ur = dimU ua)
